@@ -131,13 +131,14 @@ def _run_seed(args):
 
 def _patch_items():
     """Behaviour-preserving refactoring patches written by independent engineers (refactors/<Cxx>/refactorN.diff)."""
-    root = os.path.join(os.path.dirname(os.path.dirname(os.path.abspath(__file__))), 'refactors')
     out = []
-    if os.path.isdir(root):
-        for d in sorted(os.listdir(root)):
-            dd = os.path.join(root, d)
-            if os.path.isdir(dd):
-                out += [(f'{d}/{f}', os.path.join(dd, f)) for f in sorted(os.listdir(dd)) if f.endswith('.diff')]
+    for corpus in ('refactors', 'refactors2'):
+        root = os.path.join(os.path.dirname(os.path.dirname(os.path.abspath(__file__))), corpus)
+        if os.path.isdir(root):
+            for d in sorted(os.listdir(root)):
+                dd = os.path.join(root, d)
+                if os.path.isdir(dd):
+                    out += [(f'{corpus}/{d}/{f}', os.path.join(dd, f)) for f in sorted(os.listdir(dd)) if f.endswith('.diff')]
     return out
 
 
@@ -164,7 +165,8 @@ def _run_patch(args):
         shutil.rmtree(tmp, ignore_errors=True)
 
 
-REFACTORINGS = ('flipcmp', 'ifswap', 'commute', 'kwrev', 'retvar', 'rename', 'notnot', 'augexpand', 'withsplit', 'kwargify')
+REFACTORINGS = ('flipcmp', 'ifswap', 'commute', 'kwrev', 'retvar', 'rename', 'notnot', 'augexpand', 'withsplit', 'kwargify',
+                'hoistargs', 'comp2loop', 'guardclause', 'retifexp', 'ifexpstmt', 'splitand', 'demorgan')
 
 
 def _run_refactoring(args):
